@@ -198,7 +198,13 @@ func (f *frame) libCall(callee *ssa.Function, c *ssa.CallCommon, base string, re
 			f.assume(fmt.Sprintf("(bvsle (slen %s) (slen %s))", r.term, arg(0)))
 		}
 		return r
-	case "strconv.Itoa", "strconv.FormatInt", "strconv.FormatUint", "strconv.FormatFloat", "strconv.Quote", "strconv.FormatBool":
+	case "strconv.Itoa", "strconv.FormatInt", "strconv.FormatUint":
+		used("Itoa/FormatInt/FormatUint return a non-empty string that starts with a digit or '-' (result otherwise not modelled)")
+		r := f.resultHavoc(base, resT)
+		b0 := fmt.Sprintf("(sbyte %s #x0000000000000000)", r.term)
+		f.assume(fmt.Sprintf("(and (bvugt (slen %s) #x0000000000000000) (or (= %s #x2d) (and (bvuge %s #x30) (bvule %s #x39))))", r.term, b0, b0, b0))
+		return r
+	case "strconv.FormatFloat", "strconv.Quote", "strconv.FormatBool":
 		used("pure formatting function (result contents not modelled; non-empty)")
 		r := f.resultHavoc(base, resT)
 		f.assume(fmt.Sprintf("(bvsgt (slen %s) #x0000000000000000)", r.term))
